@@ -221,8 +221,54 @@ def oracle_c18(line, go):
     return None
 
 
+def oracle_setup(line, go):
+    """The server's handshake read off the wire against the configuration it was GIVEN (the head of the case line holds the
+    limits the user asked for: defaults where he asked for none): SETTINGS_MAX_CONCURRENT_STREAMS is that stream limit -
+    never 0 for want of configuration -, SETTINGS_MAX_HEADER_LIST_SIZE that header-list limit (absent when switched off),
+    SETTINGS_INITIAL_WINDOW_SIZE and the WINDOW_UPDATE are 1<<22, ENABLE_PUSH is 0."""
+    cfg, _ = parse_server_case(line)
+    _, fl = parse_server_result(go)
+    hs = fl.get("hs")
+    if not hs or hs == "-" or not isinstance(hs, str):
+        return None
+    try:
+        b = bytes.fromhex(hs)
+    except ValueError:
+        return None
+    if len(b) < 9:
+        return None
+    n = int.from_bytes(b[0:3], "big")
+    if b[3] != 4 or len(b) < 9 + n or n % 6:
+        return "the server's first frame is not a SETTINGS frame: " + hs[:40]
+    params = {}
+    for i in range(9, 9 + n, 6):
+        params[int.from_bytes(b[i:i + 2], "big")] = int.from_bytes(b[i + 2:i + 6], "big")
+    ms, hl = cfg.get("ms", 0), cfg.get("hl", 0)
+    if 0 < ms < 2 ** 32 and params.get(3) != ms:
+        return "the server announces SETTINGS_MAX_CONCURRENT_STREAMS=%s, its configuration says %d" % (params.get(3), ms)
+    if 0 < hl < 2 ** 32 and params.get(6) != hl:
+        return "the server announces SETTINGS_MAX_HEADER_LIST_SIZE=%s, its configuration says %d" % (params.get(6), hl)
+    if hl < 0 and 6 in params:
+        return "the server announces a header list limit although the check is switched off"
+    if params.get(2, 0) != 0:
+        return "the server announces ENABLE_PUSH=%d" % params.get(2)
+    rest = b[9 + n:]
+    if len(rest) >= 13 and rest[3] == 8:
+        inc = int.from_bytes(rest[9:13], "big") & 0x7fffffff
+        if inc == 0:
+            return "the handshake's WINDOW_UPDATE has increment 0"
+    return None
+
+
+def _with_setup(orc):
+    def f(line, go):
+        return oracle_setup(line, go) or (orc(line, go) if orc else None)
+    return f
+
+
 SERVER_ORACLES = {
-    "C06": oracle_c06, "C10": oracle_c10, "C13": oracle_c13, "C14": oracle_c14, "C17": oracle_c17, "C19": oracle_c19, "C18": oracle_c18,
+    "C06": oracle_c06, "C10": oracle_c10, "C13": _with_setup(oracle_c13), "C14": _with_setup(oracle_c14), "C17": oracle_c17,
+    "C19": oracle_c19, "C18": _with_setup(oracle_c18), "C01": _with_setup(None),
 }
 
 
